@@ -406,6 +406,9 @@ def process_cases(draw):
 def inprocess_cases(draw):
     c = draw(tagged_fasta_case())
     c["other"] = draw(tagged_fasta_case())
+    if draw(st.integers(0, 2)) == 0:
+        # a last record the .agp cache cannot represent (its name starts with '#'); it is absent from the map
+        c["fasta"]["records"].append(["#late", "", "ACGTTGCA", 60, "\n"])
     c["buffers"] = draw(st.lists(st.sampled_from([1, 7, 50, 200]), min_size=1, max_size=2, unique=True))
     c["stale_equal"] = draw(st.booleans())
     return c
